@@ -18,6 +18,7 @@ import (
 	"text/template"
 
 	"go.uber.org/cff/internal/flag"
+	"go.uber.org/multierr"
 	"golang.org/x/tools/go/ast/astutil"
 	"golang.org/x/tools/go/types/typeutil"
 )
@@ -34,6 +35,11 @@ const (
 var tmplFS embed.FS
 
 type generator struct {
+	// Position of the directive being generated, and the names the generated
+	// code uses for packages that are hidden by another declaration there.
+	usePos token.Pos
+	hidden map[string]error
+
 	fset *token.FileSet
 
 	pkg *types.Package
@@ -237,6 +243,7 @@ func (g *generator) generateFlow(file *file, f *flow, w io.Writer, addImports ma
 	// in the order they were specified by the user.
 	exprs := make(map[ast.Expr]struct{})
 
+	g.usePos, g.hidden = f.Pos(), nil
 	fnMap := g.funcMap(file, addImports, aliases, exprs)
 	t := template.New(_flowRootTmpl).Funcs(fnMap)
 	tmpl, err := t.ParseFS(tmplFS, _flowTmplDir, _sharedTmplDir)
@@ -251,6 +258,9 @@ func (g *generator) generateFlow(file *file, f *flow, w io.Writer, addImports ma
 	if err := tmpl.ExecuteTemplate(&b, _flowRootTmpl, flowTemplateData{
 		Flow: f,
 	}); err != nil {
+		return err
+	}
+	if err := g.hiddenPackages(); err != nil {
 		return err
 	}
 	// User-provided expressions are evaluated in an outer closure that
@@ -314,13 +324,58 @@ func (g *generator) funcMap(
 		"magic":       g.printMagic,
 		"quote":       strconv.Quote,
 		"import": func(importPath string) string {
+			name := ""
 			if names := file.Imports[importPath]; len(names) > 0 {
 				// importPath exists in the file already.
-				return names[0]
+				name = names[0]
+			} else {
+				name = printImportAlias(importPath, filepath.Base(importPath), addImports, aliases)
 			}
-			return printImportAlias(importPath, filepath.Base(importPath), addImports, aliases)
+			g.requireVisible(name, importPath)
+			return name
 		},
 	}
+}
+
+// requireVisible notes an error if, where the directive being generated is
+// written, name does not refer to the package with the given import path:
+// the generated code is placed there and refers to the package by that name,
+// so a parameter, variable or other declaration called name would capture the
+// reference.
+func (g *generator) requireVisible(name, importPath string) {
+	if g.pkg == nil || !g.usePos.IsValid() || name == "" {
+		return
+	}
+	scope := g.pkg.Scope().Innermost(g.usePos)
+	if scope == nil {
+		return
+	}
+	_, obj := scope.LookupParent(name, g.usePos)
+	if obj == nil {
+		return // not declared: the import is added to the file.
+	}
+	if pn, ok := obj.(*types.PkgName); ok && isPackagePathEquivalent(pn.Imported(), importPath) {
+		return
+	}
+	if g.hidden == nil {
+		g.hidden = make(map[string]error)
+	}
+	g.hidden[name] = fmt.Errorf("%v: %v (declared at %v) hides package %q, which the generated code refers to as %v: rename it",
+		g.fset.Position(g.usePos), name, g.fset.Position(obj.Pos()), importPath, name)
+}
+
+// hiddenPackages reports the errors noted by requireVisible, in a stable order.
+func (g *generator) hiddenPackages() error {
+	names := make([]string, 0, len(g.hidden))
+	for name := range g.hidden {
+		names = append(names, name)
+	}
+	sort.Strings(names)
+	var err error
+	for _, name := range names {
+		err = multierr.Append(err, g.hidden[name])
+	}
+	return err
 }
 
 func (g *generator) printMagic() string {
@@ -344,17 +399,21 @@ func (g *generator) typePrinter(f *file, addImports map[string]string, aliases m
 
 				// Using a named import.
 				if imp.Name != nil {
+					g.requireVisible(imp.Name.Name, ip)
 					return imp.Name.Name
 				}
 
 				// Unnamed imports use the package's name.
+				g.requireVisible(pkg.Name(), ip)
 				return pkg.Name()
 			}
 
 			// The generated code needs a package (pkg) to be imported to form the qualifier, but it wasn't imported
 			// by the user already and it isn't in this package (f.Package)
 			if !isPackagePathEquivalent(pkg, f.Package.Types.Path()) {
-				return printImportAlias(pkg.Path(), pkg.Name(), addImports, aliases)
+				name := printImportAlias(pkg.Path(), pkg.Name(), addImports, aliases)
+				g.requireVisible(name, pkg.Path())
+				return name
 			}
 
 			// The type is defined in the same package
